@@ -1,60 +1,15 @@
 // TextDiffConfig::diff (src/text/mod.rs): the text-diff builder stores the ops of capture_diff_deadline over the two
 // token slices (directly, or above 100 tokens through IdentifyDistinct's integer lookups) together with the configured
 // algorithm and newline flag  (C02 "stored in a text diff", parts of C14)
-/*@*/ #[verus_verify]
-//@@ item src/text/abstraction.rs :: ^pub trait DiffableStr\b only=fn\s+(len|slice)\(
-pub trait DiffableStr: Hash + PartialEq + PartialOrd + Ord + Eq + ToOwned {
-    /*@*/ /// ghost: the ABSTRACT byte view of the string (str: its UTF-8 bytes, [u8]: the bytes)
-    /*@*/ #[verus_spec] #[verifier::spec]
-    /*@*/ fn bytes(&self) -> Seq<u8>;
-
-
-
-
-
-
-
-
-
-    /// The length of the string.
-    /*@*/ #[verus_spec(res => ensures res == self.bytes().len())]
-    fn len(&self) -> usize;
-
-    /// Slices the string.
-    /*@*/ #[verus_spec(res =>
-    /*@*/     requires rng.start <= rng.end <= self.bytes().len(),
-    /*@*/     ensures res.bytes() == self.bytes().subrange(rng.start as int, rng.end as int))]
-    fn slice(&self, rng: Range<usize>) -> &Self;
-
-
-}
-//@@ end
-
 verus! {
 
-/*@*/ use std::borrow::Cow;
-/*@*/ use std::time::Duration;
-/*@*/ use std::ops::Add;
 
-/*@*/ // ---- assumed specifications of dependencies (std) ----
-/*@*/ /// the slice a Cow<'_, [T]> derefs to (alloc::borrow::Cow::deref returns the borrowed or the owned data)
-/*@*/ pub uninterp spec fn cow_ref<'a, 'b, B: ?Sized + ToOwned>(c: &'b Cow<'a, B>) -> &'b B;
-/*@*/ pub assume_specification<'a, 'b, B: ?Sized + ToOwned>[ <Cow<'a, B> as std::ops::Deref>::deref ](c: &'b Cow<'a, B>) -> (r: &'b B)
-/*@*/     ensures r == cow_ref(c);
-/*@*/ #[verifier::external_body]
-/*@*/ pub broadcast proof fn axiom_cow_borrowed<'a, B: ?Sized + ToOwned>(b: &'a B)
-/*@*/     ensures #[trigger] cow_ref(&Cow::<'a, B>::Borrowed(b)) == b {}   // Cow::deref: `Borrowed(borrowed) => borrowed`
+
 /*@*/ /// `==` on u32 is equality of the numbers (the abstract item relation `item_eq` instantiated at the integer ids)
 /*@*/ #[verifier::external_body]
 /*@*/ pub broadcast proof fn axiom_item_eq_u32(a: &u32, b: &u32)
 /*@*/     ensures #[trigger] item_eq(a, b) == (*a == *b) {}
 
-/*@*/ // ---- the exact checker only looks at the item relation inside the box it was started on ----
-/*@*/ pub open spec fn cap_post_rel(rel: Rel, or: Range<usize>, nr: Range<usize>, ops: Seq<DiffOp>, strict: bool) -> bool {
-/*@*/     let xs = xrun(rel, xcanon(or.start as int, nr.start as int, or.end as int, nr.end as int, strict), evs_of(ops));
-/*@*/     xs.ok && xs.oc == or.end && xs.nc == nr.end
-/*@*/     && xs.dels == (or.end - or.start) - xs.eqs && xs.inss == (nr.end - nr.start) - xs.eqs
-/*@*/ }
 
 /*@*/ pub proof fn lemma_xrun_congr(r1: Rel, r2: Rel, st: Xs, s: Seq<Ev>, o0: int, n0: int)
 /*@*/   requires o0 <= st.oc, n0 <= st.nc, forall|i: int, j: int| o0 <= i < st.oe && n0 <= j < st.ne ==> (#[trigger] r1(i, j)) == r2(i, j)
@@ -175,24 +130,6 @@ pub struct TextDiffConfig {
 /*@*/ }
 //@@ end
 
-//@@ item src/text/mod.rs :: ^pub struct TextDiff\b
-/*@*/ #[verifier::reject_recursive_types(T)]
-pub struct TextDiff<'old, 'new, 'bufs, T: DiffableStr + ?Sized> {
-    old: Cow<'bufs, [&'old T]>,
-    new: Cow<'bufs, [&'new T]>,
-    ops: Vec<DiffOp>,
-    newline_terminated: bool,
-    algorithm: Algorithm,
-}
-/*@*/ impl<'old, 'new, 'bufs, T: DiffableStr + ?Sized> TextDiff<'old, 'new, 'bufs, T> {
-/*@*/     /// the two token slices the diff was made of, and what it stores
-/*@*/     pub closed spec fn old_toks(&self) -> &[&'old T] { cow_ref(&self.old) }
-/*@*/     pub closed spec fn new_toks(&self) -> &[&'new T] { cow_ref(&self.new) }
-/*@*/     pub closed spec fn stored_ops(&self) -> Seq<DiffOp> { self.ops@ }
-/*@*/     pub closed spec fn nl(&self) -> bool { self.newline_terminated }
-/*@*/     pub closed spec fn alg(&self) -> Algorithm { self.algorithm }
-/*@*/ }
-//@@ end
 
 //@@ item src/algorithms/utils.rs :: ^struct OffsetLookup
 struct OffsetLookup<Int> {
@@ -496,6 +433,7 @@ impl TextDiffConfig {
     /*@*/         // C02: the stored ops are a valid, normal-form op list over the two token slices - below and above the size
     /*@*/         // at which the items are mapped to integers
     /*@*/         cap_post(old, 0..old@.len() as usize, new, 0..new@.len() as usize, res.stored_ops(), false),
+    /*@*/         res.wf(),
     {
         /*@*/ broadcast use axiom_cow_borrowed;
         self.diff(Cow::Borrowed(old), Cow::Borrowed(new), false)
@@ -517,6 +455,7 @@ impl TextDiffConfig {
     /*@*/         // C02: the stored ops are a valid, normal-form op list over the two token slices - below and above the size
     /*@*/         // at which the items are mapped to integers
     /*@*/         cap_post(cow_ref(&old), 0..cow_ref(&old)@.len() as usize, cow_ref(&new), 0..cow_ref(&new)@.len() as usize, res.stored_ops(), false),
+    /*@*/         res.wf(),
     {
         /*@*/ broadcast use {lemma_cap_lk, axiom_cow_borrowed};
         let deadline = match (self.deadline) { Some(x) => x.into_instant(), None => None };
@@ -570,54 +509,5 @@ impl TextDiffConfig {
 }
 //@@ end
 
-//@@ item src/text/mod.rs :: ^impl<'old, 'new, 'bufs, T: DiffableStr \+ \?Sized \+ 'old \+ 'new> TextDiff rw=R0 only=fn\s+(algorithm|newline_terminated|old_slices|new_slices|ops)\b
-impl<'old, 'new, 'bufs, T: DiffableStr + ?Sized + 'old + 'new> TextDiff<'old, 'new, 'bufs, T> {
-
-    /// The name of the algorithm that created the diff.
-    pub fn algorithm(&self) -> (res: Algorithm)
-    /*@*/     ensures res == self.alg(),
-    {
-        self.algorithm
-    }
-
-    /// Returns `true` if items in the slice are newline terminated.
-    ///
-    /// This flag is used by the unified diff writer to determine if extra
-    /// newlines have to be added.
-    pub fn newline_terminated(&self) -> (res: bool)
-    /*@*/     ensures res == self.nl(),
-    {
-        self.newline_terminated
-    }
-
-    /// Returns all old slices.
-    pub fn old_slices(&self) -> (res: &[&'old T])
-    /*@*/     ensures res == self.old_toks(),
-    {
-        &self.old
-    }
-
-    /// Returns all new slices.
-    pub fn new_slices(&self) -> (res: &[&'new T])
-    /*@*/     ensures res == self.new_toks(),
-    {
-        &self.new
-    }
-
-
-
-    /// Returns the captured diff ops.
-    pub fn ops(&self) -> (res: &[DiffOp])
-    /*@*/     ensures res@ == self.stored_ops(),
-    {
-        &self.ops
-    }
-
-
-
-
-
-}
-//@@ end
 
 } // verus!
